@@ -41,6 +41,8 @@ def main():
         rc0, o0 = demo(d, scratch)
         out["demo_clean_rc"] = rc0
         r = sh(["git", "-C", scratch, "apply", os.path.join(d, "patch.diff")])
+        if r.returncode != 0:  # the tree moved on since the patch was written (later fix commits): try a 3-way merge
+            r = sh(["git", "-C", scratch, "apply", "--3way", os.path.join(d, "patch.diff")])
         out["patch_applies"] = r.returncode == 0
         if r.returncode != 0:
             out["apply_error"] = r.stderr[-300:]
